@@ -97,6 +97,16 @@ class TimedLoop(LoopSpec):
 
     def on_iteration_end(self, I, fr, k):
         self._oblige("whole_step_every_pass", S.cmp(">=", self.obj.fields["chain_length"], S.add(self.head, 1)))
+        # the next batch is sized from the rate observed in THIS run: (steps taken since the call began) / (time elapsed since
+        # the call began) -- so that the clock is consulted about once per second and the run stops soon after the budget
+        u = self._interval(fr)
+        el = fr.locals.get(self.elapsed_name)
+        done = S.sub(self.obj.fields["chain_length"], self.start)
+        if el is None:
+            self._oblige("next_batch_is_sized_by_the_rate_of_this_run", False)
+        else:
+            self._oblige("next_batch_is_sized_by_the_rate_of_this_run",
+                         S.And(S.cmp(">", el, 0), S.Or(S.cmp("==", u, 1), S.cmp("<=", S.mul(u, el), done))))
 
 
 def _range_arg_name(vc, module, qualname, tag="for#0"):
@@ -112,6 +122,21 @@ def _range_arg_name(vc, module, qualname, tag="for#0"):
     raise Unsupported("run_for: batch loop is not `for _ in range(<name>)`")
 
 
+def _divisor_name(vc, module, qualname, target):
+    """the local that divides the step count where `target` (the batch size) is re-computed"""
+    import ast
+    f = vc.I.get_function(module, qualname)
+    for n in ast.walk(f.node):
+        if isinstance(n, ast.While):
+            for a in ast.walk(n):
+                if isinstance(a, ast.Assign) and isinstance(a.targets[0], ast.Name) and a.targets[0].id == target:
+                    for b in ast.walk(a.value):
+                        if isinstance(b, ast.BinOp) and isinstance(b.op, ast.Div) and isinstance(b.right, ast.Name):
+                            return b.right.id
+    from pyvc.sym import Unsupported
+    raise Unsupported("run_for: the batch size is not recomputed as <steps> / <elapsed>")
+
+
 @contract("C15", "run_for", native=False)
 def run_for_progress(vc):
     L0 = vc.int("L0", lo=1)
@@ -123,6 +148,7 @@ def run_for_progress(vc):
         vc.modular(q, take_step_summary(vc))
     spec = TimedLoop(vc)
     spec.interval_name = _range_arg_name(vc, BASE, "MarkovChain.run_for")
+    spec.elapsed_name = _divisor_name(vc, BASE, "MarkovChain.run_for", spec.interval_name)
     vc.loop("MarkovChain.run_for", "while#0", spec)
     vc.loop("MarkovChain.run_for", "for#0", CountSteps(vc, "batch"))
     vc.divisions_defined()
@@ -193,6 +219,11 @@ def run_for_native(vc):
     rng = np.random.default_rng(seed)
     post = Posterior("gauss", 2, rng)
     ch = make_sampler(kind, post, 2, rng, seed=seed)
+    history = vc.choice("steps_already_in_the_chain", [0, 0, 300, 4000])
+    if kind == "hmc":
+        history = min(history, 200)
+    if history:
+        quiet(ch.advance, history)           # a timed run on a chain that already holds samples
 
     class Clock:
         now = 1000.0
